@@ -56,7 +56,7 @@ impl Property for C15 {
     }
     fn cases(&self, tier: Tier) -> usize {
         match tier {
-            Tier::Quick => 400,
+            Tier::Quick => 800,
             Tier::Thorough => 4000,
         }
     }
